@@ -143,3 +143,33 @@ func VerifH_C17_ExtractContainment() {
 	vCover("extracted-ok", eerr == nil)
 	vCover("extraction-refused", eerr != nil)
 }
+
+// VerifH_C17_ExtractRootFile: a root that is a file (not a directory) is written to
+// <output>/unknown; the output directory may already hold an entry of that name (a symlink left by
+// an earlier root of the same archive, or pre-populated). Nothing outside may change.
+func VerifH_C17_ExtractRootFile() {
+	ls := vLinkSystem()
+	fileL, _, err := builder.BuildUnixFSFile(bytes.NewReader([]byte("PWNED")), "size-2", ls) // chunked: a dag-pb file root
+	vAssert("file-built", err == nil)
+	out := vFSPath("out")
+	outside := vFSPath("outside")
+	vFSMkdir(out)
+	vFSMkdir(outside)
+	vFSWriteFile(outside+"/secret", []byte("secret"))
+	names := []string{"unknown", "other"}
+	name := names[vChoose("existingName", 2)]
+	switch vChoose("existing", 3) {
+	case 0:
+	case 1:
+		vFSSymlink(outside+"/secret", out+"/"+name)
+		vCover("symlink-present", name == "unknown")
+	case 2:
+		vFSWriteFile(out+"/"+name, []byte("old"))
+	}
+	vFSMarkFor(out)
+	_, eerr := ExtractToDir(context.Background(), ls, fileL.(cidlink.Link).Cid, out, []string{}, false, io.Discard)
+	vAssert("nothing-outside-output-dir-changed", !vFSOutsideChanged(out))
+	sec, ok := vFSReadFile(outside + "/secret")
+	vAssert("outside-file-intact", ok && string(sec) == "secret")
+	vCover("root-file-extracted", eerr == nil)
+}
